@@ -256,7 +256,9 @@ int cp_vbnn_ver(const ec_t r, const bn_t z, const bn_t h, const uint8_t *id,
 		bn_mod(_h, _h, n);
 		RLC_FREE(buf);
 
-		if (bn_cmp(h, _h) == RLC_EQ) {
+		/* The component z must be reduced modulo the group order as well. */
+		if (bn_cmp(h, _h) == RLC_EQ && bn_sign(z) == RLC_POS &&
+				bn_cmp(z, n) == RLC_LT) {
 			result = 1;
 		} else {
 			result = 0;
